@@ -330,6 +330,29 @@ func checkC08(r *evid.Run) {
 			}
 		}
 	})
+	// a root that is a symbolic link to the directory holding the tree (releases/current -> v2): every node path exists
+	// through the link, so a verdict "everything is there" stays (symbolic links are not part of Fs.tla's file system:
+	// this is the one relation about them that the statement settles - existence follows links)
+	runFsModel(r, cfg, timeout, func(s *fsState) {
+		call := s.Hist[len(s.Hist)-1]
+		f := factsOf(s.Items)
+		if call.Op != "verify" || s.Res.K != "ok" || f.nroots != 1 || !f.allPlain || len(s.Items) < 2 || s.N%3 != 0 {
+			return
+		}
+		c := fsConc(s.N + int(r.Seed))
+		for _, massive := range []bool{false, true} {
+			o, err := runFsCallVia(pool, s, c, massive, false, c.Seq(s.Items[0].N))
+			if err != nil {
+				return // (the root is not a directory in this state: the relation does not apply)
+			}
+			r.Count("real_calls", 1)
+			r.Count("verify_through_symlinked_root", 1)
+			if o.rp.Class != "ok" {
+				r.Mismatch(fmt.Sprintf("verify-%s/strict=%v/massive=%v:root-is-a-link:false-alarm", call.Route, call.Strict, massive),
+					fmt.Sprintf("%s, the root directory moved aside and linked: err=%q", callString(s, c), o.rp.Err), rec(s, c, o, massive, ""))
+			}
+		}
+	})
 	traceFsHistories(r, pool, fsTraceN(r), fsTraceMix{hostile: 0.05, long: 0.05, mkdir: 3, dry: 0, verify: 6, envw: 4}, []string{"C08_"})
 	// Verify under every option sequence (Options.tla): the last target and strictness win, nothing else matters
 	checkOptions(r, "rule", []int{0}, func(s *optState) bool { return s.Op == "verify" })
